@@ -1292,6 +1292,217 @@ theorem jl_taylor_pert_coefs (n δ : ℝ) (hn0 : 0 ≤ n) (hn1 : n ≤ 1) (hd0 :
   · rw [abs_le]
     constructor <;> nlinarith
 
+/-! ## pass 10: `W((1+δ)φ,σ)⁻¹·W(φ,σ)` for `θ ≤ eps` (translation block of `Log ∘ Exp` on sim3 near 0) -/
+
+
+theorem polyK_mulVec_eq (C a b : ℝ) (x t : Vec3 ℝ) :
+    (polyK C a b x).mulVec t = ((t.smul C).add ((x.cross t).smul a)).add ((x.cross (x.cross t)).smul b) := by
+  unfold polyK; ext <;> lie_unfold <;> ring
+
+/-- `‖(C + aK + bK²) z‖² = C²‖z‖² + (a² − 2Cb)‖x×z‖² + b²‖x×(x×z)‖²` (K antisymmetric) -/
+theorem polyK_mulVec_normSq (C a b : ℝ) (x z : Vec3 ℝ) :
+    ((polyK C a b x).mulVec z).normSq =
+      C ^ 2 * z.normSq + (a ^ 2 - 2 * C * b) * (x.cross z).normSq + b ^ 2 * (x.cross (x.cross z)).normSq := by
+  unfold polyK; lie_unfold; ring
+
+theorem Mat3.mulVec_sub (A : Mat3 ℝ) (u v : Vec3 ℝ) : A.mulVec (u.sub v) = (A.mulVec u).sub (A.mulVec v) := by
+  ext <;> lie_unfold <;> ring
+
+theorem polyK_sub_mulVec (C a b a' b' : ℝ) (x t : Vec3 ℝ) :
+    ((polyK C a b x).mulVec t).sub ((polyK C a' b' x).mulVec t) =
+      ((x.cross t).smul (a - a')).add ((x.cross (x.cross t)).smul (b - b')) := by
+  unfold polyK; ext <;> lie_unfold <;> ring
+
+/-- for `θ ≤ eps` the coefficients of `rxso3_Ws` do not depend on `θ` (regimes 1 and 3) -/
+theorem rxso3WsCoef_small_indep (eps t1 t2 sg : ℝ) (h1 : ¬ eps < t1) (h2 : ¬ eps < t2) :
+    rxso3WsCoef eps t1 sg = rxso3WsCoef eps t2 sg := by
+  by_cases hs : eps < |sg|
+  · rw [rxso3WsCoef_r3 eps t1 sg hs h1, rxso3WsCoef_r3 eps t2 sg hs h2]
+  · rw [rxso3WsCoef_r1 eps t1 sg hs h1, rxso3WsCoef_r1 eps t2 sg hs h2]
+theorem ws_low (C B cc a Q1 Q2 Z n : ℝ) (hcc0 : 0 ≤ cc) (hcc1 : cc ≤ 1) (hQ1 : 0 ≤ Q1) (hQ1n : Q1 ≤ n * Z) (hQ2 : 0 ≤ Q2)
+    (hZ : 0 ≤ Z) (hn : n ≤ 1 / 4) (hCB : C * B ≤ C ^ 2) :
+    C ^ 2 * Z / 2 ≤ C ^ 2 * Z + (a ^ 2 - 2 * C * (B * cc)) * Q1 + (B * cc) ^ 2 * Q2 := by
+  have hC2 : 0 ≤ C ^ 2 := sq_nonneg C
+  have t1 : 0 ≤ a ^ 2 * Q1 := mul_nonneg (sq_nonneg a) hQ1
+  have t2 : 0 ≤ (B * cc) ^ 2 * Q2 := mul_nonneg (sq_nonneg _) hQ2
+  have h1 : C * B * cc ≤ C ^ 2 := by
+    rcases le_or_gt 0 (C * B) with hp | hp
+    · have := mul_le_mul_of_nonneg_left hcc1 hp
+      linarith only [this, hCB]
+    · have : C * B * cc ≤ 0 := mul_nonpos_of_nonpos_of_nonneg (le_of_lt hp) hcc0
+      linarith only [this, hC2]
+  have h2 : C * B * cc * Q1 ≤ C ^ 2 * Q1 := mul_le_mul_of_nonneg_right h1 hQ1
+  have h3 : C ^ 2 * Q1 ≤ C ^ 2 * (n * Z) := mul_le_mul_of_nonneg_left hQ1n hC2
+  have h4 : n * Z ≤ 1 / 4 * Z := mul_le_mul_of_nonneg_right hn hZ
+  have h5 : C ^ 2 * (n * Z) ≤ C ^ 2 * (1 / 4 * Z) := mul_le_mul_of_nonneg_left h4 hC2
+  have e : (a ^ 2 - 2 * C * (B * cc)) * Q1 = a ^ 2 * Q1 - 2 * (C * B * cc * Q1) := by ring
+  rw [e]
+  linarith only [t1, t2, h2, h3, h5]
+
+theorem ws_up (C A B d P1 P2 n T : ℝ) (hA2 : A ^ 2 ≤ C ^ 2) (hB2 : B ^ 2 ≤ C ^ 2) (hd0 : 0 ≤ d) (hd1 : d ≤ 1)
+    (hP1 : 0 ≤ P1) (hP1n : P1 ≤ n * T) (hP2 : 0 ≤ P2) (hP2n : P2 ≤ n * P1) (hn0 : 0 ≤ n) (hn : n ≤ 1 / 4) (hT : 0 ≤ T) :
+    2 * ((A - A * (1 - d)) * (A - A * (1 - d)) * P1) + 2 * ((B - B * ((1 - d) * (1 - d))) * (B - B * ((1 - d) * (1 - d))) * P2)
+      ≤ 4 * C ^ 2 * (d ^ 2 * (n * T)) := by
+  have e1 : (A - A * (1 - d)) * (A - A * (1 - d)) = A ^ 2 * d ^ 2 := by ring
+  have e2 : (B - B * ((1 - d) * (1 - d))) * (B - B * ((1 - d) * (1 - d))) = B ^ 2 * (d ^ 2 * (2 - d) ^ 2) := by ring
+  rw [e1, e2]
+  have hC2 : 0 ≤ C ^ 2 := sq_nonneg C
+  have hd2 : 0 ≤ d ^ 2 := sq_nonneg d
+  have hnT : 0 ≤ n * T := mul_nonneg hn0 hT
+  have h2d : (2 - d) ^ 2 ≤ 4 := by nlinarith only [hd0, hd1]
+  have s1 : A ^ 2 * d ^ 2 * P1 ≤ C ^ 2 * d ^ 2 * (n * T) :=
+    mul_le_mul (mul_le_mul_of_nonneg_right hA2 hd2) hP1n hP1 (mul_nonneg hC2 hd2)
+  have hP2' : P2 ≤ n * (n * T) := le_trans hP2n (mul_le_mul_of_nonneg_left hP1n hn0)
+  have hP2'' : n * (n * T) ≤ 1 / 4 * (n * T) := mul_le_mul_of_nonneg_right hn hnT
+  have ha : B ^ 2 * (d ^ 2 * (2 - d) ^ 2) ≤ C ^ 2 * (d ^ 2 * 4) :=
+    mul_le_mul hB2 (mul_le_mul_of_nonneg_left h2d hd2) (mul_nonneg hd2 (sq_nonneg _)) hC2
+  have s2 : B ^ 2 * (d ^ 2 * (2 - d) ^ 2) * P2 ≤ C ^ 2 * (d ^ 2 * 4) * (1 / 4 * (n * T)) :=
+    mul_le_mul ha (le_trans hP2' hP2'') hP2 (mul_nonneg hC2 (mul_nonneg hd2 (by norm_num)))
+  have e3 : C ^ 2 * (d ^ 2 * 4) * (1 / 4 * (n * T)) = C ^ 2 * d ^ 2 * (n * T) := by ring
+  have e4 : 4 * C ^ 2 * (d ^ 2 * (n * T)) = 4 * (C ^ 2 * d ^ 2 * (n * T)) := by ring
+  have hpos : 0 ≤ C ^ 2 * d ^ 2 * (n * T) := mul_nonneg (mul_nonneg hC2 hd2) hnT
+  rw [e3] at s2; rw [e4]
+  linarith only [s1, s2, hpos]
+
+theorem ws_fin (C Z d n T : ℝ) (hC2 : 0 < C ^ 2) (h : C ^ 2 * Z / 2 ≤ 4 * C ^ 2 * (d ^ 2 * (n * T))) (hd0 : 0 ≤ d)
+    (hd1 : d ≤ n ^ 2 / 50) (hn0 : 0 ≤ n) (hT : 0 ≤ T) : Z ≤ n ^ 5 / 300 * T := by
+  have h' : C ^ 2 * Z ≤ C ^ 2 * (8 * (d ^ 2 * (n * T))) := by linarith only [h]
+  have hZ : Z ≤ 8 * (d ^ 2 * (n * T)) := le_of_mul_le_mul_left h' hC2
+  have hnT : 0 ≤ n * T := mul_nonneg hn0 hT
+  have hdd : d ^ 2 ≤ (n ^ 2 / 50) ^ 2 := pow_le_pow_left₀ hd0 hd1 2
+  have h1 : d ^ 2 * (n * T) ≤ (n ^ 2 / 50) ^ 2 * (n * T) := mul_le_mul_of_nonneg_right hdd hnT
+  have e : (n ^ 2 / 50) ^ 2 * (n * T) = n ^ 5 * T / 2500 := by ring
+  have hn5T : 0 ≤ n ^ 5 * T := mul_nonneg (by positivity) hT
+  have e2 : n ^ 5 / 300 * T = n ^ 5 * T / 300 := by ring
+  rw [e] at h1; rw [e2]
+  linarith only [hZ, h1, hn5T]
+
+/-- core estimate: if `W' y = W τ` with `W = C + A·K + B·K²`, `W' = C + (A c)·K + (B c²)·K²`, `c = 1 − d`, `0 ≤ d ≤ n²/50`, `n = ‖φ‖² ≤ 1/4`,
+`|A| ≤ |C|`, `|B| ≤ |C|`, `C ≠ 0`, then `‖y − τ‖² ≤ n⁵‖τ‖²/300` -/
+theorem ws_pert_bound (C A B d : ℝ) (x tau y : Vec3 ℝ) (hC : C ≠ 0) (hA : |A| ≤ |C|) (hB : |B| ≤ |C|)
+    (hn : x.normSq ≤ 1 / 4) (hd0 : 0 ≤ d) (hd1 : d ≤ x.normSq ^ 2 / 50)
+    (h : (polyK C (A * (1 - d)) (B * ((1 - d) * (1 - d))) x).mulVec y = (polyK C A B x).mulVec tau) :
+    (y.sub tau).normSq ≤ x.normSq ^ 5 / 300 * tau.normSq := by
+  have hn0 := Vec3.normSq_nonneg x
+  have key : (polyK C (A * (1 - d)) (B * ((1 - d) * (1 - d))) x).mulVec (y.sub tau) =
+      ((x.cross tau).smul (A - A * (1 - d))).add ((x.cross (x.cross tau)).smul (B - B * ((1 - d) * (1 - d)))) := by
+    rw [Mat3.mulVec_sub, h, polyK_sub_mulVec]
+  have hL := polyK_mulVec_normSq C (A * (1 - d)) (B * ((1 - d) * (1 - d))) x (y.sub tau)
+  rw [key] at hL
+  have hU := Vec3.add_normSq_le ((x.cross tau).smul (A - A * (1 - d))) ((x.cross (x.cross tau)).smul (B - B * ((1 - d) * (1 - d))))
+  rw [Vec3.normSq_smul, Vec3.normSq_smul] at hU
+  have hA2 : A ^ 2 ≤ C ^ 2 := by
+    have := mul_le_mul hA hA (abs_nonneg A) (abs_nonneg C)
+    rw [abs_mul_abs_self, abs_mul_abs_self] at this; nlinarith only [this]
+  have hB2 : B ^ 2 ≤ C ^ 2 := by
+    have := mul_le_mul hB hB (abs_nonneg B) (abs_nonneg C)
+    rw [abs_mul_abs_self, abs_mul_abs_self] at this; nlinarith only [this]
+  have hCB : C * B ≤ C ^ 2 := by
+    have h1 := le_abs_self (C * B)
+    rw [abs_mul] at h1
+    have h2 := mul_le_mul_of_nonneg_left hB (abs_nonneg C)
+    rw [abs_mul_abs_self] at h2
+    nlinarith only [h1, h2]
+  have hC2 : 0 < C ^ 2 := by positivity
+  have hd50 : d ≤ 1 := by nlinarith only [hd1, hn, hn0]
+  have hcc0 : 0 ≤ (1 - d) * (1 - d) := mul_self_nonneg _
+  have hcc1 : (1 - d) * (1 - d) ≤ 1 := by nlinarith only [hd0, hd50]
+  have low := ws_low C B ((1 - d) * (1 - d)) (A * (1 - d)) _ _ _ x.normSq hcc0 hcc1
+    (Vec3.normSq_nonneg (x.cross (y.sub tau))) (Vec3.cross_normSq_le x (y.sub tau))
+    (Vec3.normSq_nonneg (x.cross (x.cross (y.sub tau)))) (Vec3.normSq_nonneg (y.sub tau)) hn hCB
+  have up := ws_up C A B d _ _ x.normSq tau.normSq hA2 hB2 hd0 hd50 (Vec3.normSq_nonneg (x.cross tau))
+    (Vec3.cross_normSq_le x tau) (Vec3.normSq_nonneg (x.cross (x.cross tau))) (Vec3.cross_normSq_le x (x.cross tau)) hn0 hn
+    (Vec3.normSq_nonneg tau)
+  rw [← hL] at low
+  exact ws_fin C _ d x.normSq tau.normSq hC2 (le_trans low (le_trans hU up)) hd0 hd1 hn0 (Vec3.normSq_nonneg tau)
+
+theorem hasDerivAt_wsNB (s : ℝ) :
+    HasDerivAt (fun s : ℝ => Real.exp s * (s ^ 2 / 2 - s + 1) - 1) (Real.exp s * s ^ 2 / 2) s := by
+  have hp : HasDerivAt (fun s : ℝ => s ^ 2 / 2 - s + 1) (s - 1) s :=
+    ((((hasDerivAt_pow 2 s).div_const 2).sub (hasDerivAt_id s)).add_const 1).congr_deriv (by norm_num)
+  exact (((Real.hasDerivAt_exp s).mul hp).sub_const 1).congr_deriv (by ring)
+
+theorem hasDerivAt_wsH (s : ℝ) :
+    HasDerivAt (fun s : ℝ => Real.exp s * (s ^ 2 / 2 + s - 1) + 1 - s ^ 2) (s * (Real.exp s * (s / 2 + 2) - 2)) s := by
+  have hp : HasDerivAt (fun s : ℝ => s ^ 2 / 2 + s - 1) (s + 1) s :=
+    ((((hasDerivAt_pow 2 s).div_const 2).add (hasDerivAt_id s)).sub_const 1).congr_deriv (by norm_num)
+  have h2 : HasDerivAt (fun s : ℝ => s ^ 2) (2 * s) s := (hasDerivAt_pow 2 s).congr_deriv (by norm_num)
+  exact ((((Real.hasDerivAt_exp s).mul hp).add_const 1).sub h2).congr_deriv (by ring)
+
+/-- `σ·(e^σ(σ²/2 − σ + 1) − 1) ≥ 0` -/
+theorem wsNB_sign (s : ℝ) : 0 ≤ s * (Real.exp s * (s ^ 2 / 2 - s + 1) - 1) := by
+  have mono : Monotone (fun s : ℝ => Real.exp s * (s ^ 2 / 2 - s + 1) - 1) :=
+    monotone_of_deriv_nonneg (fun s => (hasDerivAt_wsNB s).differentiableAt)
+      (fun s => by rw [(hasDerivAt_wsNB s).deriv]; have := Real.exp_pos s; positivity)
+  have h0 : (fun s : ℝ => Real.exp s * (s ^ 2 / 2 - s + 1) - 1) 0 = 0 := by simp
+  rcases le_or_gt 0 s with h | h
+  · have := mono h; rw [h0] at this; exact mul_nonneg h this
+  · have := mono (le_of_lt h); rw [h0] at this; exact mul_nonneg_of_nonpos_of_nonpos (le_of_lt h) this
+
+/-- `σ·(e^σ(σ/2 + 2) − 2) ≥ 0` -/
+theorem wsK_sign (s : ℝ) : 0 ≤ s * (Real.exp s * (s / 2 + 2) - 2) := by
+  have hE := Real.exp_pos s
+  rcases le_or_gt 0 s with h | h
+  · have h1 : 1 ≤ Real.exp s := Real.one_le_exp h
+    apply mul_nonneg h
+    nlinarith
+  · apply mul_nonneg_of_nonpos_of_nonpos (le_of_lt h)
+    rcases le_or_gt s (-4) with h4 | h4
+    · have : Real.exp s * (s / 2 + 2) ≤ 0 := mul_nonpos_of_nonneg_of_nonpos (le_of_lt hE) (by linarith)
+      linarith
+    · -- (s + 4) ≤ 4 e^{-s}
+      have h1 : -s + 1 ≤ Real.exp (-s) := Real.add_one_le_exp (-s)
+      have h2 : Real.exp (-s) * Real.exp s = 1 := by rw [← Real.exp_add]; simp
+      have hpos : 0 < s + 4 := by linarith
+      nlinarith
+
+theorem wsH_sign (s : ℝ) : 0 ≤ s * (Real.exp s * (s ^ 2 / 2 + s - 1) + 1 - s ^ 2) := by
+  have mono : Monotone (fun s : ℝ => Real.exp s * (s ^ 2 / 2 + s - 1) + 1 - s ^ 2) :=
+    monotone_of_deriv_nonneg (fun s => (hasDerivAt_wsH s).differentiableAt)
+      (fun s => by rw [(hasDerivAt_wsH s).deriv]; exact wsK_sign s)
+  have h0 : (fun s : ℝ => Real.exp s * (s ^ 2 / 2 + s - 1) + 1 - s ^ 2) 0 = 0 := by simp
+  rcases le_or_gt 0 s with h | h
+  · have := mono h; rw [h0] at this; exact mul_nonneg h this
+  · have := mono (le_of_lt h); rw [h0] at this; exact mul_nonneg_of_nonpos_of_nonpos (le_of_lt h) this
+/-- regime 3 of `rxso3_Ws`: `0 ≤ B ≤ C` for every `σ ≠ 0` -/
+theorem ws3_B_le_C (eps th sg : ℝ) (h0 : 0 ≤ eps) (hs : eps < |sg|) (ht : ¬ eps < th) :
+    |(rxso3WsCoef eps th sg).2.1| ≤ |(rxso3WsCoef eps th sg).2.2| := by
+  have hsg : sg ≠ 0 := abs_pos.mp (lt_of_le_of_lt h0 hs)
+  rw [rxso3WsCoef_r3 eps th sg hs ht]
+  simp only []
+  have h4 : 0 < sg ^ 4 := by positivity
+  have eB : (1 / 2 * (sg * sg) * Real.exp sg + (Real.exp sg - 1) - sg * Real.exp sg) / (sg * sg * sg)
+      = sg * (Real.exp sg * (sg ^ 2 / 2 - sg + 1) - 1) / sg ^ 4 := by field_simp; ring
+  have eCB : (Real.exp sg - 1) / sg - (1 / 2 * (sg * sg) * Real.exp sg + (Real.exp sg - 1) - sg * Real.exp sg) / (sg * sg * sg)
+      = sg * (Real.exp sg * (sg ^ 2 / 2 + sg - 1) + 1 - sg ^ 2) / sg ^ 4 := by field_simp; ring
+  have hB0 : 0 ≤ (1 / 2 * (sg * sg) * Real.exp sg + (Real.exp sg - 1) - sg * Real.exp sg) / (sg * sg * sg) := by
+    rw [eB]; exact div_nonneg (wsNB_sign sg) (le_of_lt h4)
+  have hCB : 0 ≤ (Real.exp sg - 1) / sg - (1 / 2 * (sg * sg) * Real.exp sg + (Real.exp sg - 1) - sg * Real.exp sg) / (sg * sg * sg) := by
+    rw [eCB]; exact div_nonneg (wsH_sign sg) (le_of_lt h4)
+  rw [abs_of_nonneg hB0, abs_of_nonneg (by linarith)]
+  linarith
+
+/-- regime 3 of `rxso3_Ws` (`|σ| > eps`, `θ ≤ eps`): `0 < A ≤ C` for every `σ ≠ 0` (from `1 + σ ≤ e^σ`) -/
+theorem ws3_A_le_C (eps th sg : ℝ) (h0 : 0 ≤ eps) (hs : eps < |sg|) (ht : ¬ eps < th) :
+    |(rxso3WsCoef eps th sg).1| ≤ |(rxso3WsCoef eps th sg).2.2| ∧ (rxso3WsCoef eps th sg).2.2 ≠ 0 := by
+  have hsg : sg ≠ 0 := abs_pos.mp (lt_of_le_of_lt h0 hs)
+  rw [rxso3WsCoef_r3 eps th sg hs ht]
+  simp only []
+  have hE := exp_sub_one_ne_zero hsg
+  have hApos := ws_A3_pos hsg
+  have hss : 0 < sg * sg := mul_self_pos.mpr hsg
+  have hCpos : 0 < (Real.exp sg - 1) / sg := by
+    rcases lt_or_gt_of_ne hsg with hneg | hpos
+    · apply div_pos_of_neg_of_neg _ hneg
+      have := Real.exp_lt_one_iff.mpr hneg; linarith
+    · apply div_pos _ hpos
+      have := Real.one_lt_exp_iff.mpr hpos; linarith
+  refine ⟨?_, ne_of_gt hCpos⟩
+  rw [abs_of_pos (div_pos hApos hss), abs_of_pos hCpos, div_le_iff₀ hss]
+  have e : (Real.exp sg - 1) / sg * (sg * sg) = (Real.exp sg - 1) * sg := by field_simp
+  rw [e]
+  nlinarith [Real.add_one_le_exp sg]
+
 /-! ## fixed sample values used by the non-vacuity examples of `Proofs/Props/C02.lean` -/
 namespace C02Ex
 
